@@ -626,18 +626,28 @@ def build_evidence(prop, cfg, tier, seed, wall, obligations, discharged, fn_rows
         cov["bounded"]["bounded"] = True
     level = cfg.get("level", "proof")
     if level != "proof" or obligations == 0:
-        # bounded-only property
-        cov["evaluations"] = (replay_res or {}).get("evaluations", 0)
-        cov["distinct_nontrivial"] = (replay_res or {}).get("distinct_nontrivial", 0)
-        cov["rule"] = (replay_res or {}).get("rule", "")
-        cov["samples"] = (replay_res or {}).get("samples", samples) or samples
+        # bounded-only property: nothing deductive ran, say so instead of leaving Verus fields around
+        rr = replay_res or {}
+        cov = {
+            "evaluations": rr.get("evaluations", 0),
+            "distinct_nontrivial": rr.get("distinct_nontrivial", 0),
+            "rule": rr.get("rule", ""),
+            "samples": rr.get("samples", []) or ["(none)"],
+            "exhaustive": False,
+            "bounds": rr.get("bounds"),
+            "checks": rr.get("checks"),
+            "bounded": True,
+            "checker_cmd": rr.get("cmd", "replay crate"),
+            "trusted_base": ["the reference definition in /verif/replay/src (oracle)"],
+            "explanation": "BOUNDED stand-in only: no function of this property is under contract (see DESIGN.md); nothing here is counted as proved",
+        }
     return {
         "property_id": prop,
         "tier": tier,
         "seed": seed,
         "level": level,
         "coverage": cov,
-        "assumptions": sorted(set(trusted)) + cfg.get("assumptions", []),
+        "assumptions": sorted(set(trusted)) + cfg.get("assumptions", []) + ([cfg.get("level_note")] if cfg.get("level_note") else []),
         "wall_s": round(wall, 2),
         "violations": nviol,
     }
